@@ -78,7 +78,7 @@ def observe(case, variant=0):
             out = fitted(out).transform(Xn) if variant % 2 or p.get("fit") else out.fit_transform(Xn)
         elif op == "truncate":
             from sktime.transformations.panel.truncation import TruncationTransformer
-            out = mk(TruncationTransformer, dict(lower=p["lo"] or None, upper=p["hi"] or None), dict(lower=1, upper=2))
+            out = mk(TruncationTransformer, dict(lower=(p["lo"] if (p["lo"] or p["hi"]) else None), upper=p["hi"] or None), dict(lower=1, upper=2))
             out = fitted(out).transform(Xn) if variant % 2 or p.get("fit") else out.fit_transform(Xn)
         elif op == "interpolate":
             from sktime.transformations.panel.interpolate import TSInterpolator
@@ -86,6 +86,13 @@ def observe(case, variant=0):
         elif op == "tabularize":
             from sktime.transformations.panel.reduce import Tabularizer
             out = Tabularizer().fit_transform(Xn)
+            if isinstance(Xn, pd.DataFrame):
+                # labels <column>__<time>, every column with its own time points
+                want = ["%s__%s" % (col, t) for col in Xn.columns
+                        for t in (Xn[col].iloc[0].index if hasattr(Xn[col].iloc[0], "index") else range(len(Xn[col].iloc[0])))]
+                if [str(c_) for c_ in out.columns] != want:
+                    raise AssertionError("TabularLabels: Tabularizer labels its columns %s, the panel's columns and time points are %s"
+                                         % (list(out.columns), want))
             a = np.asarray(out, dtype=float)
             return [[[rational(float(v)) or [] for v in row]] for row in a]
         elif op == "concat":
@@ -182,7 +189,7 @@ def random_case(rng):
             p["lo"] = rng.randint(1, m)
         else:
             p["hi"] = rng.randint(2, m)
-            p["lo"] = rng.randint(1, p["hi"] - 1)
+            p["lo"] = rng.randint(0, p["hi"] - 1)        # 0: a range that starts at the first time point
     elif op == "interpolate":
         p["L"] = rng.randint(1, 9)
     elif op == "paa":
